@@ -42,6 +42,8 @@ fn main() {
             simkit::driver::check_main(a(2), tier, seed_from_env())
         }
         "replay" => simkit::driver::replay_main(a(2)),
+        "dump" => simkit::driver::dump_main(a(2)),
+        "sites" => simkit::driver::sites_main(a(2), Tier::parse(a(3)).unwrap_or(Tier::Quick), a(4)),
         "triage" => simkit::driver::triage_main(a(2), Tier::parse(a(3)).unwrap_or(Tier::Quick), seed_from_env(), a(4)),
         "selftest" => match a(2) {
             "determinism" => {
